@@ -1,4 +1,4 @@
-"""C10 — BOLFI posterior = its definition; cached-RBF fast path = the GP; update keeps evidence.
+"""C10 — BOLFI posterior = its definition; cached-RBF fast path = the GP (in every sampling phase); update keeps evidence.
 
 Ties (DESIGN.md 4): (1) translator harness/translate_c10.py regenerates coq/Gen/C10_Gradient.v from the
 source text on every run, the `is_derive` theorem of Proofs/C10_Deriv.v is re-checked against it;
@@ -193,11 +193,19 @@ class C10(PropCheck):
             'BolfiPosterior with explicit / minimised thresholds and flat, normal, box and real ModelPrior priors; queries shaped '
             'scalar / 1-D / 2-D with rows inside, outside, exactly on a bound, on a corner and one ulp outside; non-trivial = '
             'posterior query with at least one row inside the bounds (formula + oracle tie + finite differences exercised) or on a bound, '
-            'evidence trace with >= 2 updates, or fast-path comparison at >= 3 points; distinct by (model recipe, query)')
+            'evidence trace with >= 2 updates, fast-path comparison at >= 3 points, or multi-phase case (sampling phase -> leave -> '
+            'standalone optimize() / direct edit of lengthscale, variance, bias or noise on the GPy model / update(optimize=True|False) '
+            '-> sampling phase again, 1-3 such re-entries, fast predict, predictive_gradients and posterior compared with GPy in EVERY phase) '
+            'in which at least one re-entry WITHOUT new evidence really changed the hyper-parameters; every recipe also gets two '
+            'posterior queries with a caller-supplied boundary threshold (0, 0.0, -0.0, negative, tiny positive incl. 5e-324, in rotation) '
+            'whose density and gradient are compared with the formula evaluated from the SUPPLIED value; distinct by (model recipe, query / steps)')
     trusted = ('translator harness/translate_c10.py (Python ast -> Gallina, fail-closed) and the reading "numpy element-wise op on one row/coordinate = scalar op on reals"',
                'GPy (posterior algebra, optimiser), scipy.stats.norm pdf/cdf/logcdf and numpy sqrt are oracles: their values at the occurring arguments are recorded per case and checked for mutual consistency inside Coq (Gp.oracle_ok)',
                'harness shim paramz.Param.__float__ for 1-element parameters (numpy 2 refuses float(array of shape (1,)) in _cache_RBF_kernel); numpy 1.x behaviour restored, no repo change',
-               'finite-difference clause: Richardson-extrapolated central differences, h=1e-4, tolerance 2e-5 relative; fast-path clause: 1e-8 relative')
+               'finite-difference clause: Richardson-extrapolated central differences, h=1e-4, tolerance 2e-5 relative; fast-path clause: 1e-8 relative',
+               'multi-phase clause: between two sampling phases the harness queries the surrogate once with is_sampling off (as fitting / acquisition / '
+               'threshold minimisation do) - the pinned code invalidates its RBF cache only there; a re-entry with NO non-sampling predict() in between '
+               'is observed, not asserted (histogram keys observed:reentry_before_any_nonsampling_predict:*)')
 
     def __init__(self, seed, tier):
         super().__init__(seed, tier)
